@@ -145,3 +145,9 @@ Fixpoint rpath (n : nid) (t : itree) : option (list nat) :=
   match t with
   | INode i _ kids => if N.eqb i n then Some [] else rpath_kids (rpath n) 0 kids
   end.
+
+(* ---- what traverse_df_ltr_btt visits under an ambient filter: the post-order through visible children only ---- *)
+Fixpoint post_vis (D : nfilter) (s : itree) : list nid :=
+  match s with INode i _ kids => flat_map (fun k => if D (iid k) then post_vis D k else []) kids ++ [i] end.
+Definition a_post_vis (t : itree) (D : nfilter) (n : nid) : list nid :=
+  match a_sub t n with Some s => post_vis D s | None => [] end.
